@@ -252,6 +252,8 @@ fn expr(cx: &Ctx, e: &Expr) -> R<String> {
                 BinOp::Ne(_) if grp => format!("(!Sm9.G.eq {} {})", paren(&l), paren(&r)),
                 BinOp::BitAnd(_) => format!("({} &&& {})", l, r),    // integers only (u128 loop constants)
                 BinOp::Shl(_) => format!("({} <<< {})", l, r),
+                BinOp::Gt(_) => format!("(decide ({} > {}))", l, r),      // integers only (loop counters)
+                BinOp::Lt(_) => format!("(decide ({} < {}))", l, r),
                 BinOp::Add(_) => format!("({} + {})", l, r),
                 BinOp::Sub(_) => format!("({} - {})", l, r),
                 BinOp::Mul(_) => format!("({} * {})", l, r),
@@ -534,7 +536,7 @@ fn assigned_in_expr(e: &Expr, acc: &mut BTreeSet<String>, declared: &mut BTreeSe
         Expr::MethodCall(m) if m.method == "push" || m.method == "normalize" || m.method == "copy_from_slice" => collect_lhs(&m.receiver, acc, declared),
         Expr::Binary(b) if matches!(b.op, BinOp::BitOrAssign(_)) => collect_lhs(&b.left, acc, declared),
         Expr::Assign(a) => { collect_lhs(&a.left, acc, declared); }
-        Expr::Binary(b) if matches!(b.op, BinOp::AddAssign(_) | BinOp::SubAssign(_) | BinOp::MulAssign(_)) => collect_lhs(&b.left, acc, declared),
+        Expr::Binary(b) if matches!(b.op, BinOp::AddAssign(_) | BinOp::SubAssign(_) | BinOp::MulAssign(_) | BinOp::ShrAssign(_)) => collect_lhs(&b.left, acc, declared),
         Expr::If(i) => {
             let mut d2 = declared.clone();
             assigned_vars(&i.then_branch, acc, &mut d2);
@@ -711,6 +713,12 @@ fn stmts(cx: &Ctx, ss: &[Stmt], ind: usize, tail: Option<&str>) -> R<String> {
                     flush(cx, &pad, &mut out);
                     writeln!(out, "{}let {} := {} ++ [{}]", pad, l, l, v).unwrap();
                 }
+                Expr::Binary(b) if matches!(b.op, BinOp::ShrAssign(_)) => {
+                    let l = lhs_str(cx, &b.left)?;
+                    let v = expr(cx, &b.right)?;
+                    flush(cx, &pad, &mut out);
+                    writeln!(out, "{}let {} := {} >>> {}", pad, l, l, v).unwrap();
+                }
                 Expr::Binary(b) if matches!(b.op, BinOp::AddAssign(_) | BinOp::SubAssign(_) | BinOp::MulAssign(_)) => {
                     let l = lhs_str(cx, &b.left)?;
                     let v = expr(cx, &b.right)?;
@@ -776,6 +784,25 @@ fn stmts(cx: &Ctx, ss: &[Stmt], ind: usize, tail: Option<&str>) -> R<String> {
                         }
                     }
                     if !closed { writeln!(out, "\n{}  else {}", pad, fin).unwrap(); } else { writeln!(out).unwrap(); }
+                }
+                Expr::While(w) => {
+                    // `while c { body }` over the variables the body assigns; fuel 128 = width of the only loop
+                    // counters in the translated code (u128 exponents shifted right once per iteration) — the same
+                    // fuel as the model's, whose sufficiency is a theorem (C17 `pow_u128_eq`)
+                    let mut acc = BTreeSet::new();
+                    let mut decl = BTreeSet::new();
+                    assigned_vars(&w.body, &mut acc, &mut decl);
+                    let vars: Vec<String> = acc.into_iter().collect();
+                    if vars.is_empty() { return Err("while loop without assigned variables".into()); }
+                    let tup = if vars.len() == 1 { vars[0].clone() } else { format!("({})", vars.join(", ")) };
+                    let c = expr(cx, &w.cond)?;
+                    if !cx.binds.borrow().is_empty() { return Err("panic site in a while condition".into()); }
+                    let body = stmts(cx, &w.body.stmts, ind + 4, Some(&tup))?;
+                    if body.contains('←') { return Err("panic site inside a while loop".into()); }
+                    flush(cx, &pad, &mut out);
+                    writeln!(out, "{}let {} := Sm9.whileFuel 128 (fun {} => {}) (fun {} =>", pad, tup, tup, c, tup).unwrap();
+                    out.push_str(&body);
+                    writeln!(out, ") {}", tup).unwrap();
                 }
                 Expr::ForLoop(f) => {
                     let var = pat_str(&f.pat)?;
@@ -933,7 +960,7 @@ const TARGETS: &[Target] = &[
     Target { file: "pairings.rs", self_ty: "Fq12", lean_ns: "Fq12", mono: None, fns: &["final_exponentiation_first_chunk", "final_exponentiation_last_chunk", "final_exp_last_chunk"] },
     Target { file: "pairings.rs", self_ty: "G2", lean_ns: "G2m", mono: None, fns: &["point_pi1", "point_pi2", "eval_g_tangent", "eval_g_line", "q_power_frobenius", "g_line", "g_tangent", "miller_loop"] },
     Target { file: "pairings.rs", self_ty: "G2Prepared", lean_ns: "G2Prepared", mono: None, fns: &["get_fq12", "from", "miller_loop"] },
-    Target { file: "pairings.rs", self_ty: "Fq12", lean_ns: "Fq12", mono: None, fns: &["final_exponentiation", "final_exp"] },
+    Target { file: "pairings.rs", self_ty: "Fq12", lean_ns: "Fq12", mono: None, fns: &["final_exponentiation", "final_exp", "pow"] },
     Target { file: "pairings.rs", self_ty: "", lean_ns: "Pairings", mono: None, fns: &["pairing", "fast_pairing", "bit"] },
     Target { file: "groups.rs", self_ty: "AffineG", lean_ns: "AffineG1", mono: Some("Fq"), fns: &["new", "to_jacobian"] },
     Target { file: "groups.rs", self_ty: "AffineG", lean_ns: "AffineG2", mono: Some("Fq2"), fns: &["new", "to_jacobian"] },
